@@ -622,4 +622,46 @@ def siteCase (thr : Nat) (key : Bytes) (mode : TokMode) (hosts pats : List Bytes
             (.res ((parseSiteKey key).2.isEmpty || pathCase [(parseSiteKey key).2] path esc)))
     (tokCase thr mode hosts pats rhost path esc)
 
+/-! ### MatchHost.Provision with `idna.ToASCII` as a parameter
+
+`idna : Bytes → Option Bytes` (`none` = it returned an error) is the value the real
+`idna.ToASCII` returned for each entry; the harness ships those values with the case.
+First loop: entry by entry, convert, store the converted form, check the lower-cased converted
+form against the ones seen so far.  Second part (large lists only): lower-case the exact
+entries of the *converted* slice, sort. -/
+
+inductive ProvRes where
+  | idnaErr                   -- "converting hostname … to ASCII"
+  | dup                       -- "host at index … is repeated"
+  | ok (m : List Bytes)
+deriving DecidableEq, Repr
+
+/-- the first loop; `seen` = the map keys so far, `acc` = the converted prefix, last first -/
+def provPass1 (idna : Bytes → Option Bytes) : List Bytes → List Bytes → List Bytes → ProvRes
+  | [], _, acc => .ok acc.reverse
+  | h :: t, seen, acc =>
+    match idna h with
+    | none => .idnaErr
+    | some a => if seen.contains (lower a) then .dup else provPass1 idna t (lower a :: seen) (a :: acc)
+
+/-- `MatchHost.Provision` -/
+def provisionHostI (idna : Bytes → Option Bytes) (thr : Nat) (l : List Bytes) : ProvRes :=
+  match provPass1 idna l [] [] with
+  | .ok m => if m.length > thr then .ok (sortHosts (m.map lowerExact)) else .ok m
+  | .idnaErr => .idnaErr
+  | .dup => .dup
+
+inductive HostResI where
+  | idnaErr
+  | dup
+  | res (b : Bool)
+deriving DecidableEq, Repr
+
+/-- Provision + Match with the conversion as a parameter -/
+def hostCaseI (idna : Bytes → Option Bytes) (thr : Nat) (l : List Bytes) (rhost : Bytes) : HostResI :=
+  match provisionHostI idna thr l with
+  | .ok m => .res (matchHost thr m rhost)
+  | .idnaErr => .idnaErr
+  | .dup => .dup
+
 end CaddyModel.C06
